@@ -52,43 +52,43 @@
        the four declaration starters, no `main` snippet (a valid program declares main).
        ([C16_toplevel] above is the statement for all documents.)
 
-   PROVED in addition (last part of this file; Proofs/ComplFindings*.v): THE FIVE KNOWN FINDING CLASSES, CHARACTERISED.
-   For every valid program the model is decided at EVERY cursor index in the white space of a procedure declaration -
-   between two adjacent tokens (comments are tokens) or directly behind a token, the closing brace included:
+   PROVED in addition (last part of this file, continued in Props/C16Findings.v; Proofs/ComplFindings*.v):
+   THE FIVE KNOWN FINDING CLASSES, CHARACTERISED.  For every valid program the model is decided at EVERY cursor index in
+   the white space of a procedure declaration - between two adjacent tokens (comments are tokens) or directly behind a
+   token, the closing brace included:
      C16_body_positions_classified   the answer is [render .. (proc_spec D dd lo hi lastk)], where [proc_spec] is a
-                                     function of the ABSTRACT declaration, of two token indices (lo = hi: the position is
-                                     INSIDE token lo, where `correct_index` puts a cursor that stands directly behind a
-                                     token; hi = lo + 1: in the gap behind it) and of the kind of the token `token_before`
-                                     returns; [C16_classifier_equations] are its defining equations.  The theorems (S), (S'),
-                                     (T) and the following ones are instances; an independent evaluation compares it with
-                                     `propose` at all 93 such positions of an example procedure (Props/C16Findings.v).
+         function of the ABSTRACT declaration, of two token indices (lo = hi: the position is INSIDE token lo, where
+         `correct_index` puts a cursor that stands directly behind a token; hi = lo + 1: in the gap behind it) and of the
+         kind of the token `token_before` returns; [C16_classifier_equations] are its defining equations.  The theorems
+         (S), (S'), (T) and the following ones are instances; an independent evaluation compares it with `propose` at all
+         93 such positions of an example procedure (C16Findings.v [C16_classified_eval]).
    The position classes on which the classifier of the real code answers null or incompletely (known findings
    C16-cursor-directly-behind-token, C16-comment-before-cursor, C16-text-start, C16-branch-statement-start,
-   C16-paren-left-of-assign) are thereby theorems about the model, at any nesting depth:
+   C16-paren-left-of-assign) are thereby theorems about the model, at any nesting depth ((F): pinned in C16Findings.v):
      (1) C16_directly_behind_token  c = te tprev: the answer of the position INSIDE tprev, `token_before` = tprev if it has
-         two characters or more, the token in front of it otherwise ([C16_token_lengths]: which tokens have one);
-         per kind: behind `:=` null [C16_directly_behind_assign]; behind the `(` of a call / `if` / `while` null
+         two characters or more, the token in front of it otherwise ((F) C16_token_lengths: which tokens have one).
+         Per kind (F): behind `:=` null [C16_directly_behind_assign]; behind the `(` of a call / `if` / `while` null
          [C16_directly_behind_paren]; behind the `;` of an assignment or call the variables only
          [C16_directly_behind_statement_semic]; behind the `{` / `}` of a block the statement proposals
          [C16_directly_behind_block_brace]; behind the closing brace of a procedure the statement proposals with its
-         locals, not the declaration starters [C16_directly_behind_procedure_end]; behind a token of the header / the variable
-         declarations the answer of the kind of `token_before` alone - null behind `:`, `{`, `;`, an identifier
-         [C16_directly_behind_declaration_token]; in a type declaration [C16_directly_behind_type_decl_token].  (Not uniform for the `;` of an empty statement and for identifiers
-         inside bodies: they are decided by their context - [C16_body_positions_classified].)
+         locals, not the declaration starters [C16_directly_behind_procedure_end]; behind a token of the header / the
+         variable declarations the answer of the kind of `token_before` alone - null behind `:`, `{`, `;`, an identifier
+         [C16_directly_behind_declaration_token]; in a type declaration [C16_directly_behind_type_decl_token].  (Not uniform
+         for the `;` of an empty statement and for identifiers inside bodies: decided by their context through
+         [C16_body_positions_classified].)
      (2) C16_comment_before_cursor  tprev a comment, the cursor behind it up to the next token (the start of the next line
          included): behind a leading comment of a statement the statement proposals if the statement is `;` or a block, NULL
-         in front of an assignment, call, `if`, `while`; [C16_comment_before_cursor_declaration]: null in the header, the
+         in front of an assignment, call, `if`, `while`; (F) [C16_comment_before_cursor_declaration]: null in the header, the
          variable declarations (no types behind `:` + comment) and in front of the first statement other than `;`;
-         [C16_comment_before_cursor_procedure_end]: in front of the closing brace the statement proposals iff the body
+         (F) [C16_comment_before_cursor_procedure_end]: in front of the closing brace the statement proposals iff the body
          holds a statement other than `;`.
-     (3) C16_text_start  c = 0 in a text that starts with a token: null ([C16_text_start_blank]: starters otherwise).
+     (3) C16_text_start  c = 0 in a text that starts with a token: null ((F) [C16_text_start_blank]: starters otherwise).
      (4) C16_branch_statement_start  the white space in front of a then- / else-branch or a loop body (block or not):
          exactly the variables of the procedure.
-     (5) C16_paren_left_of_assign  every gap of an assignment left of `:=`: null; [C16_assignment_call_positions]: every
-         gap of an assignment / a call: null left of `:=` / `(`, exactly the variables right of it (the expression
+     (5) C16_paren_left_of_assign  every gap of an assignment left of `:=`: null; (F) [C16_assignment_call_positions]:
+         every gap of an assignment / a call: null left of `:=` / `(`, exactly the variables right of it (the expression
          positions of C16, which (S), (S'), (T), (G) do not cover).
-   Props/C16Findings.v: [C16_findings_examples] applies them to a second example program (Proofs/ComplFindingsEx.v),
-   [C16_classified_eval] and [C16_findings_examples_eval] evaluate the model there.
+   C16Findings.v [C16_findings_examples] applies them to a second example program (Proofs/ComplFindingsEx.v).
 
    PROVED in addition, for every DOCUMENT WITHOUT DIAGNOSTICS (third part of this file; Proofs/CompleteFeatures.v):
    by the COMPLETENESS of the front end (Proofs/CompleteFront.v [front_end_complete]) a document d that
@@ -613,7 +613,9 @@ Proof. vm_compute. split; reflexivity. Qed.
 (* ========================================================================================== *)
 (* the five known finding classes, characterised                                                *)
 (* (Proofs/ComplFindings*.v: on valid programs the model is decided at EVERY white-space position of
-   a procedure declaration; the known findings of C16 are instances)                            *)
+   a procedure declaration; the known findings of C16 are instances.  The headline theorem of each class
+   is pinned here, the further ones - per kind of token, declaration parts, type declarations - and the
+   examples in Props/C16Findings.v)                                                             *)
 From Coq Require Import NArith.
 From Spl Require Import Proofs.ComplFindingsSpec Proofs.ComplFindingsProc Proofs.ComplFindingsPath Proofs.ComplFindingsLex.
 From Spl Require Import Proofs.ComplFindings Proofs.ComplFindingsClasses Proofs.ComplFindingsEx.
@@ -718,19 +720,6 @@ Theorem C16_directly_behind_token : forall (p : aprog) (G : gtable) (t : text) (
 Proof. exact propose_procedure_behind. Qed.
 Print Assumptions C16_directly_behind_token.
 
-(* which tokens have one character: the punctuation has the length of its spelling, comments have two
-   characters or more *)
-Theorem C16_token_lengths : forall (t : text) (toks : list token),
-  lex t = Some toks ->
-  Forall (fun tok => match tk tok with
-                     | LParen | RParen | LBracket | RBracket | LCurly | RCurly | Colon | Comma | Semic => te tok = (ts tok + 1)%N
-                     | Assign => te tok = (ts tok + 2)%N
-                     | Comment _ => (ts tok + 2 <= te tok)%N
-                     | _ => True
-                     end) toks.
-Proof. exact lex_punctuation_lengths. Qed.
-Print Assumptions C16_token_lengths.
-
 (* ---- per kind of tprev.  From here on s is a top-level statement of the body (behind the statements b1),
    s' a statement nested in s at any depth - through blocks, branches of `if`, bodies of `while`; s' = s is
    allowed ([snest s g s']: token g of s is the first token of s', leading comments included), and
@@ -741,142 +730,6 @@ Theorem C16_stmt_index : forall l1 c1 c2 x c3 ps c4 c5 vs b1 g,
    + length (fl_stmts b1) + g)%nat.
 Proof. exact stmt_index_eq. Qed.
 Print Assumptions C16_stmt_index.
-
-(* directly behind `:=`: null (one column further, behind a blank, the answer is the variables) *)
-Theorem C16_directly_behind_assign : forall (p : aprog) (G : gtable) (t : text) (toks : list token) (d : doc),
-  prog_ok p = true -> well_typed (expected p) G ->
-  lex t = Some toks -> map tk toks = flatten p ++ [Eof] -> new_doc_res t = ODone d ->
-  forall l1 c1 c2 x c3 ps c4 c5 vs b1 s b2 c6 l2 g v ca e cb,
-    a_decls p = l1 ++ DProc c1 c2 x c3 ps c4 c5 vs (sapp b1 (SCons s b2)) c6 :: l2 ->
-    snest s g (SAsg v ca e cb) ->
-    forall tprev line col,
-      nth_error toks (stmt_index l1 c1 c2 x c3 ps c4 c5 vs b1 g + length (fl_var v) + length ca) = Some tprev ->
-      get_insertion_index line col t = te tprev ->
-      propose d line col = ROk None.
-Proof. exact propose_behind_assign. Qed.
-Print Assumptions C16_directly_behind_assign.
-
-(* directly behind the `(` of a call, of an `if`, of a `while` ([head_paren s' q]: token q of s' is that `(`): null *)
-Theorem C16_directly_behind_paren : forall (p : aprog) (G : gtable) (t : text) (toks : list token) (d : doc),
-  prog_ok p = true -> well_typed (expected p) G ->
-  lex t = Some toks -> map tk toks = flatten p ++ [Eof] -> new_doc_res t = ODone d ->
-  forall l1 c1 c2 x c3 ps c4 c5 vs b1 s b2 c6 l2 g s',
-    a_decls p = l1 ++ DProc c1 c2 x c3 ps c4 c5 vs (sapp b1 (SCons s b2)) c6 :: l2 ->
-    snest s g s' ->
-    forall q tprev line col,
-      head_paren s' q ->
-      nth_error toks (stmt_index l1 c1 c2 x c3 ps c4 c5 vs b1 g + q) = Some tprev ->
-      get_insertion_index line col t = te tprev ->
-      propose d line col = ROk None.
-Proof. exact propose_behind_paren. Qed.
-Print Assumptions C16_directly_behind_paren.
-
-(* directly behind the `;` that ends an assignment or a call ([vars_from s' q]: s' is an assignment / a call, q
-   the index of its `:=` / `(`): the position is inside that statement - the variables only, although it is
-   the start of the next statement *)
-Theorem C16_directly_behind_statement_semic : forall (p : aprog) (G : gtable) (t : text) (toks : list token) (d : doc),
-  prog_ok p = true -> well_typed (expected p) G ->
-  lex t = Some toks -> map tk toks = flatten p ++ [Eof] -> new_doc_res t = ODone d ->
-  forall l1 c1 c2 x c3 ps c4 c5 vs b1 s b2 c6 l2 g s',
-    a_decls p = l1 ++ DProc c1 c2 x c3 ps c4 c5 vs (sapp b1 (SCons s b2)) c6 :: l2 ->
-    snest s g s' ->
-    forall q tprev line col,
-      vars_from s' q ->
-      nth_error toks (stmt_index l1 c1 c2 x c3 ps c4 c5 vs b1 g + length (fl_stmt s') - 1) = Some tprev ->
-      get_insertion_index line col t = te tprev ->
-      exists pe, lookup G x = Some (GProcE pe) /\ map fst (pe_local pe) = aparams_names ps ++ map v_x vs /\
-        propose d line col = ROk (Some (search_variables (pe_local pe))).
-Proof. exact propose_behind_stmt_semic. Qed.
-Print Assumptions C16_directly_behind_statement_semic.
-
-(* directly behind the `{` (token |ca| of the block) or the `}` (its last token) of a block statement: the statement
-   proposals - what C16 prescribes there - with the `else` starters in front in some cases ([else_or_not]) *)
-Theorem C16_directly_behind_block_brace : forall (p : aprog) (G : gtable) (t : text) (toks : list token) (d : doc),
-  prog_ok p = true -> well_typed (expected p) G ->
-  lex t = Some toks -> map tk toks = flatten p ++ [Eof] -> new_doc_res t = ODone d ->
-  forall l1 c1 c2 x c3 ps c4 c5 vs b1 s b2 c6 l2 g ca b cb,
-    a_decls p = l1 ++ DProc c1 c2 x c3 ps c4 c5 vs (sapp b1 (SCons s b2)) c6 :: l2 ->
-    snest s g (SBlk ca b cb) ->
-    forall m tprev line col,
-      m = length ca \/ m = length (fl_stmt (SBlk ca b cb)) - 1 ->
-      nth_error toks (stmt_index l1 c1 c2 x c3 ps c4 c5 vs b1 g + m) = Some tprev ->
-      get_insertion_index line col t = te tprev ->
-      exists pe pre, lookup G x = Some (GProcE pe) /\ map fst (pe_local pe) = aparams_names ps ++ map v_x vs /\
-        else_or_not pre /\ propose d line col = ROk (Some (pre ++ new_stmt (Some (pe_local pe)) G)).
-Proof. exact propose_behind_block_brace. Qed.
-Print Assumptions C16_directly_behind_block_brace.
-
-(* directly behind the closing brace of a procedure whose body holds a statement other than `;`: still inside the
-   procedure - the statement proposals with ITS variables, not the declaration starters *)
-Theorem C16_directly_behind_procedure_end : forall (p : aprog) (G : gtable) (t : text) (toks : list token) (d : doc),
-  prog_ok p = true -> well_typed (expected p) G ->
-  lex t = Some toks -> map tk toks = flatten p ++ [Eof] -> new_doc_res t = ODone d ->
-  forall l1 c1 c2 x c3 ps c4 c5 vs b c6 l2,
-    a_decls p = l1 ++ DProc c1 c2 x c3 ps c4 c5 vs b c6 :: l2 ->
-    forall tprev line col,
-      has_real b = true ->
-      nth_error toks (length (flat_map fl_decl l1) + length (fl_decl (DProc c1 c2 x c3 ps c4 c5 vs b c6)) - 1) = Some tprev ->
-      get_insertion_index line col t = te tprev ->
-      exists pe, lookup G x = Some (GProcE pe) /\ map fst (pe_local pe) = aparams_names ps ++ map v_x vs /\
-        propose d line col = ROk (Some (new_stmt (Some (pe_local pe)) G)).
-Proof. exact propose_behind_proc_rcurly. Qed.
-Print Assumptions C16_directly_behind_procedure_end.
-
-(* directly behind a token of the header, of the variable declarations or of the leading `;` statements (token m lies
-   in front of the first statement other than `;`): the answer is read off the kind of `token_before` alone - behind
-   `:` (one character: last is the identifier in front of it) null, behind `of` the types, behind `{` / `;` null
-   ([sig_answer], [decl_answer]: see [C16_declaration_answers]) *)
-Theorem C16_directly_behind_declaration_token : forall (p : aprog) (G : gtable) (t : text) (toks : list token) (d : doc),
-  prog_ok p = true -> well_typed (expected p) G ->
-  lex t = Some toks -> map tk toks = flatten p ++ [Eof] -> new_doc_res t = ODone d ->
-  forall l1 c1 c2 x c3 ps c4 c5 vs b c6 l2,
-    a_decls p = l1 ++ DProc c1 c2 x c3 ps c4 c5 vs b c6 :: l2 ->
-    forall m tprev last line col,
-      (length (flat_map fl_decl l1) <= m)%nat ->
-      (m < length (flat_map fl_decl l1) + length (fl_decl (DProc c1 c2 x c3 ps c4 c5 vs b c6)))%nat ->
-      match first_real b (length (flat_map fl_decl l1) + length (proc_head c1 c2 x c3 ps c4 c5) + length (flat_map fl_vardecl vs)) with
-      | Some r => (m < r)%nat
-      | None => True
-      end ->
-      nth_error toks m = Some tprev -> get_insertion_index line col t = te tprev ->
-      ((ts tprev + 1 < te tprev)%N /\ last = tprev \/
-       (ts tprev + 1 = te tprev)%N /\ (length (flat_map fl_decl l1) < m)%nat /\ nth_error toks (m - 1) = Some last) ->
-      exists pe, lookup G x = Some (GProcE pe) /\ map fst (pe_local pe) = aparams_names ps ++ map v_x vs /\
-        propose d line col =
-          ROk (render (Some (pe_local pe)) G
-                 (if m <? length (flat_map fl_decl l1) + length (proc_sig c1 c2 x c3 ps c4)
-                  then sig_answer (tk last) else decl_answer (tk last))).
-Proof. exact propose_behind_decl_part. Qed.
-Print Assumptions C16_directly_behind_declaration_token.
-
-Theorem C16_declaration_answers : forall k,
-  sig_answer k = match k with LParen | Comma => ARef | Colon | KOf => ATypes | _ => ANull end /\
-  decl_answer k = match k with Colon | KOf => ATypes | Semic | LCurly => AVarStmt | _ => ANull end.
-Proof. exact (fun k => conj eq_refl eq_refl). Qed.
-Print Assumptions C16_declaration_answers.
-
-(* ... and directly behind a token of a TYPE declaration: the kind of `token_before` decides as in the gaps
-   ([C16_type_decl_position]) - behind the `;` that ends the declaration last is the type name in front of it: null *)
-Theorem C16_directly_behind_type_decl_token : forall (p : aprog) (G : gtable) (t : text) (toks : list token) (d : doc),
-  prog_ok p = true -> well_typed (expected p) G ->
-  lex t = Some toks -> map tk toks = flatten p ++ [Eof] -> new_doc_res t = ODone d ->
-  forall l1 c1 c2 x c3 ty c4 l2,
-    a_decls p = l1 ++ DType c1 c2 x c3 ty c4 :: l2 ->
-    let dd := DType c1 c2 x c3 ty c4 in
-    let D := length (flat_map fl_decl l1) in
-    forall m tprev last line col,
-      (D <= m)%nat -> (m < D + length (fl_decl dd))%nat ->
-      nth_error toks m = Some tprev -> get_insertion_index line col t = te tprev ->
-      ((ts tprev + 1 < te tprev)%N /\ last = tprev \/
-       (ts tprev + 1 = te tprev)%N /\ (D < m)%nat /\ nth_error toks (m - 1) = Some last) ->
-      propose d line col =
-        ROk (match tk last with
-             | RBracket => Some [item_of]
-             | EqT | KOf => Some ([snip_array; item_array] ++ search_types G)
-             | _ => None
-             end).
-Proof. exact propose_type_decl_behind. Qed.
-Print Assumptions C16_directly_behind_type_decl_token.
 
 (* (2) a comment between the previous code token and the cursor: tprev is a comment token, the cursor anywhere
    behind it up to the next token - the position directly behind the comment, i.e. the start of the next line,
@@ -904,45 +757,6 @@ Theorem C16_comment_before_cursor : forall (p : aprog) (G : gtable) (t : text) (
 Proof. exact propose_comment_stmt_lead. Qed.
 Print Assumptions C16_comment_before_cursor.
 
-(* type positions and everything else in front of the first statement other than `;` (header, variable declarations,
-   leading `;`, the comments in front of the closing brace of a body without such a statement): null - behind
-   `:` + comment no type is proposed *)
-Theorem C16_comment_before_cursor_declaration : forall (p : aprog) (G : gtable) (t : text) (toks : list token) (d : doc),
-  prog_ok p = true -> well_typed (expected p) G ->
-  lex t = Some toks -> map tk toks = flatten p ++ [Eof] -> new_doc_res t = ODone d ->
-  forall l1 c1 c2 x c3 ps c4 c5 vs b c6 l2,
-    a_decls p = l1 ++ DProc c1 c2 x c3 ps c4 c5 vs b c6 :: l2 ->
-    forall m tprev tnext line col,
-      (length (flat_map fl_decl l1) <= m)%nat ->
-      (S m < length (flat_map fl_decl l1) + length (fl_decl (DProc c1 c2 x c3 ps c4 c5 vs b c6)))%nat ->
-      match first_real b (length (flat_map fl_decl l1) + length (proc_head c1 c2 x c3 ps c4 c5) + length (flat_map fl_vardecl vs)) with
-      | Some r => (m < r)%nat
-      | None => True
-      end ->
-      nth_error toks m = Some tprev -> nth_error toks (S m) = Some tnext -> is_comment (tk tprev) = true ->
-      (te tprev <= get_insertion_index line col t)%N -> (get_insertion_index line col t <= ts tnext)%N ->
-      propose d line col = ROk None.
-Proof. exact propose_comment_decl_part. Qed.
-Print Assumptions C16_comment_before_cursor_declaration.
-
-(* behind a comment in front of the closing brace of the procedure (comment i of the slot c6): the statement
-   proposals iff the body holds a statement other than `;` *)
-Theorem C16_comment_before_cursor_procedure_end : forall (p : aprog) (G : gtable) (t : text) (toks : list token) (d : doc),
-  prog_ok p = true -> well_typed (expected p) G ->
-  lex t = Some toks -> map tk toks = flatten p ++ [Eof] -> new_doc_res t = ODone d ->
-  forall l1 c1 c2 x c3 ps c4 c5 vs b c6 l2,
-    a_decls p = l1 ++ DProc c1 c2 x c3 ps c4 c5 vs b c6 :: l2 ->
-    let j := (length (flat_map fl_decl l1) + length (proc_head c1 c2 x c3 ps c4 c5) + length (flat_map fl_vardecl vs)
-              + length (fl_stmts b))%nat in
-    forall i tprev tnext line col,
-      (i < length c6)%nat ->
-      nth_error toks (j + i) = Some tprev -> nth_error toks (S (j + i)) = Some tnext ->
-      (te tprev <= get_insertion_index line col t)%N -> (get_insertion_index line col t <= ts tnext)%N ->
-      exists pe, lookup G x = Some (GProcE pe) /\ map fst (pe_local pe) = aparams_names ps ++ map v_x vs /\
-        propose d line col = ROk (if has_real b then Some (new_stmt (Some (pe_local pe)) G) else None).
-Proof. exact propose_comment_proc_end. Qed.
-Print Assumptions C16_comment_before_cursor_procedure_end.
-
 (* (3) the cursor at index 0 of a text that starts with its first token: null; in a text that starts with white
    space the declaration starters, as everywhere in front of the first token ([C16_toplevel_start_valid]) *)
 Theorem C16_text_start : forall (p : aprog) (G : gtable) (t : text) (toks : list token) (d : doc),
@@ -953,15 +767,6 @@ Theorem C16_text_start : forall (p : aprog) (G : gtable) (t : text) (toks : list
     propose d line col = ROk None.
 Proof. exact propose_text_start. Qed.
 Print Assumptions C16_text_start.
-
-Theorem C16_text_start_blank : forall (p : aprog) (G : gtable) (t : text) (toks : list token) (d : doc),
-  prog_ok p = true -> well_typed (expected p) G ->
-  lex t = Some toks -> map tk toks = flatten p ++ [Eof] -> new_doc_res t = ODone d ->
-  forall first line col,
-    nth_error toks 0 = Some first -> (0 < ts first)%N -> get_insertion_index line col t = 0%N ->
-    propose d line col = ROk (Some [snip_proc; snip_type; item_proc; item_type]).
-Proof. exact propose_text_start_blank. Qed.
-Print Assumptions C16_text_start_blank.
 
 (* (4) the white space in front of the then-branch / the else-branch of an `if` or of the body of a `while`
    ([branch_start s' r]: s' is the `if` / `while`, token r of s' the first token of the branch, leading comments
@@ -999,26 +804,6 @@ Theorem C16_paren_left_of_assign : forall (p : aprog) (G : gtable) (t : text) (t
       propose d line col = ROk None.
 Proof. exact propose_left_of_assign. Qed.
 Print Assumptions C16_paren_left_of_assign.
-
-(* ... and the whole picture for assignments and calls: every gap between two tokens of the statement: null left of
-   the `:=` / the `(` (token q), exactly the variables right of it - the EXPRESSION positions of C16 (the class
-   PExpr of [position_class]), which the theorems (S), (S'), (T), (G) do not cover *)
-Theorem C16_assignment_call_positions : forall (p : aprog) (G : gtable) (t : text) (toks : list token) (d : doc),
-  prog_ok p = true -> well_typed (expected p) G ->
-  lex t = Some toks -> map tk toks = flatten p ++ [Eof] -> new_doc_res t = ODone d ->
-  forall l1 c1 c2 x c3 ps c4 c5 vs b1 s b2 c6 l2 g s',
-    a_decls p = l1 ++ DProc c1 c2 x c3 ps c4 c5 vs (sapp b1 (SCons s b2)) c6 :: l2 ->
-    snest s g s' ->
-    forall q i tprev tnext line col,
-      vars_from s' q ->
-      (S i < length (fl_stmt s'))%nat ->
-      nth_error toks (stmt_index l1 c1 c2 x c3 ps c4 c5 vs b1 g + i) = Some tprev ->
-      nth_error toks (S (stmt_index l1 c1 c2 x c3 ps c4 c5 vs b1 g + i)) = Some tnext ->
-      (te tprev < get_insertion_index line col t)%N -> (get_insertion_index line col t <= ts tnext)%N ->
-      exists pe, lookup G x = Some (GProcE pe) /\ map fst (pe_local pe) = aparams_names ps ++ map v_x vs /\
-        propose d line col = ROk (if i <? q then None else Some (search_variables (pe_local pe))).
-Proof. exact propose_simple_stmt_position. Qed.
-Print Assumptions C16_assignment_call_positions.
 
 (* the shapes used above *)
 Theorem C16_position_shapes :
